@@ -383,6 +383,19 @@ func (fg *FnGen) evalIdent(name string, env *CEnv) *Val {
 		}
 	}
 	if env.calleePkg == "" {
+		// a parameter that is only spilled to a cell (captured by a closure) and never reassigned keeps
+		// its entry value: use it directly (the cell is not yet initialised in the entry state)
+		if v, ok := fg.params[name]; ok && fg.paramNeverReassigned(name) {
+			isFree := false
+			for _, fv := range fg.fn.FreeVars {
+				if fv.Name() == name {
+					isFree = true
+				}
+			}
+			if !isFree {
+				return v
+			}
+		}
 		if !env.noLocals {
 			if v, ok := env.lookupLocal(name); ok {
 				return v
@@ -1090,4 +1103,60 @@ func (fg *FnGen) evalMod(e CExpr, env *CEnv) []modEntry {
 		}
 	}
 	return out
+}
+
+// paramNeverReassigned: the parameter's spill cell (if any) is stored exactly once (the initial spill).
+func (fg *FnGen) paramNeverReassigned(name string) bool {
+	if fg.paramStable == nil {
+		fg.paramStable = map[string]bool{}
+		for _, p := range fg.fn.Params {
+			stable := true
+			// find allocs initialised from this parameter
+			if p.Referrers() != nil {
+				for _, r := range *p.Referrers() {
+					st, ok := r.(*ssa.Store)
+					if !ok || st.Val != ssa.Value(p) {
+						continue
+					}
+					al, ok := st.Addr.(*ssa.Alloc)
+					if !ok {
+						continue
+					}
+					n := 0
+					if al.Referrers() != nil {
+						for _, ar := range *al.Referrers() {
+							if s2, ok := ar.(*ssa.Store); ok && s2.Addr == ssa.Value(al) {
+								n++
+							}
+						}
+					}
+					if n != 1 {
+						stable = false
+					}
+					// closures may also write the captured variable
+					if al.Referrers() != nil {
+						for _, ar := range *al.Referrers() {
+							if mc, ok := ar.(*ssa.MakeClosure); ok {
+								cf := mc.Fn.(*ssa.Function)
+								for bi, b := range mc.Bindings {
+									if b == ssa.Value(al) && bi < len(cf.FreeVars) {
+										fv := cf.FreeVars[bi]
+										if fv.Referrers() != nil {
+											for _, fr := range *fv.Referrers() {
+												if s3, ok := fr.(*ssa.Store); ok && s3.Addr == ssa.Value(fv) {
+													stable = false
+												}
+											}
+										}
+									}
+								}
+							}
+						}
+					}
+				}
+			}
+			fg.paramStable[p.Name()] = stable
+		}
+	}
+	return fg.paramStable[name]
 }
